@@ -142,6 +142,9 @@ type shared struct {
 }
 
 type world struct {
+	sharedOpts [][]jd.Option // one slice per option set (plus two for render options), spare capacity filled with sentinels
+	optsPrint  string
+	memo       map[string]string // first result of every call signature in this history
 	c     C15Case
 	nodes []*shared // A, B
 	diffs []*shared
@@ -200,7 +203,7 @@ func guardCall(f func() outcome) (o outcome) {
 
 // exec performs call c on the given values (live or fresh copies) and returns
 // its outcome and, for calls that produce a diff, the diff.
-func execCall(c Call, cs C15Case, a, b jd.JsonNode, diffs []jd.Diff) (outcome, jd.Diff) {
+func execCall(c Call, cs C15Case, a, b jd.JsonNode, diffs []jd.Diff, sharedOpts [][]jd.Option) (outcome, jd.Diff) {
 	var produced jd.Diff
 	stats.LibCalls++
 	node := a
@@ -210,7 +213,21 @@ func execCall(c Call, cs C15Case, a, b jd.JsonNode, diffs []jd.Diff) (outcome, j
 	var opts []jd.Option
 	if c.O >= 0 && c.O < len(cs.Opts) {
 		opts = mkOptions(cs.Opts[c.O])
+		if sharedOpts != nil {
+			// the caller's own option slice, with spare capacity behind it:
+			// an option list is an argument too
+			opts = sharedOpts[c.O][:len(opts)]
+		}
 	}
+	renderOpts := func(extra ...jd.Option) []jd.Option {
+		if sharedOpts == nil || c.O < 0 || c.O >= len(cs.Opts) {
+			return extra
+		}
+		// render options handed over as a prefix of a longer slice
+		r := sharedOpts[len(cs.Opts)+c.O%2]
+		return r[:len(extra)]
+	}
+	_ = renderOpts
 	var d jd.Diff
 	if c.D >= 0 && c.D < len(diffs) {
 		d = diffs[c.D]
@@ -232,7 +249,7 @@ func execCall(c Call, cs C15Case, a, b jd.JsonNode, diffs []jd.Diff) (outcome, j
 		case "Render":
 			return outcome{text: d.Render()}
 		case "RenderColor":
-			return outcome{text: d.Render(jd.COLOR)}
+			return outcome{text: d.Render(renderOpts(jd.COLOR)...)}
 		case "RenderPatch":
 			s, err := d.RenderPatch()
 			return outcome{text: s, err: err != nil}
@@ -248,7 +265,7 @@ func execCall(c Call, cs C15Case, a, b jd.JsonNode, diffs []jd.Diff) (outcome, j
 			if len(d) == 0 {
 				return outcome{text: ""}
 			}
-			return outcome{text: d[c.E%len(d)].Render(jd.COLOR)}
+			return outcome{text: d[c.E%len(d)].Render(renderOpts(jd.COLOR)...)}
 		case "Read":
 			if c.T < 0 || c.T >= len(cs.Texts) {
 				return outcome{}
@@ -256,6 +273,33 @@ func execCall(c Call, cs C15Case, a, b jd.JsonNode, diffs []jd.Diff) (outcome, j
 			x, err := readText(cs.Texts[c.T])
 			produced = x
 			return outcome{text: fingerprint(x), err: err != nil, val: x}
+		case "PatchPrivate":
+			// everything private and thrown away: a document parsed for the
+			// occasion is patched with two diffs read for the occasion
+			if len(cs.Texts) == 0 {
+				return outcome{}
+			}
+			d1, err := readText(cs.Texts[c.T%len(cs.Texts)])
+			if err != nil {
+				return outcome{err: true}
+			}
+			d2, err := readText(cs.Texts[(c.T+1)%len(cs.Texts)])
+			if err != nil {
+				return outcome{err: true}
+			}
+			doc, err := readDoc(cs.A, cs.YAML)
+			if err != nil {
+				return outcome{err: true}
+			}
+			r, err := doc.Patch(d1)
+			if err != nil {
+				return outcome{err: true}
+			}
+			r2, err := r.Patch(d2)
+			if err != nil {
+				return outcome{text: "first only: " + r.Json()}
+			}
+			return outcome{text: r2.Json()}
 		case "ReadDoc":
 			text := cs.A
 			if c.N == 1 {
@@ -336,7 +380,13 @@ func checkC15(c C15Case) (*Violation, []string, *caseInfo) {
 	if errA != nil || errB != nil || a == nil || b == nil {
 		return nil, nil, info
 	}
-	w := &world{c: c}
+	w := &world{c: c, memo: map[string]string{}}
+	sentinels := []jd.Option{jd.COLOR, jd.SET, jd.MULTISET, jd.Precision(7)}
+	for _, o := range c.Opts {
+		w.sharedOpts = append(w.sharedOpts, append(mkOptions(o), sentinels...))
+	}
+	w.sharedOpts = append(w.sharedOpts, append([]jd.Option{jd.COLOR}, sentinels...), append([]jd.Option{jd.COLOR}, sentinels[1:]...))
+	w.optsPrint = fingerprint(w.sharedOpts)
 	w.nodes = []*shared{
 		{name: "A", live: a, pristine: deepCopyAny(a)},
 		{name: "B", live: b, pristine: deepCopyAny(b)},
@@ -426,14 +476,14 @@ func checkC15(c C15Case) (*Violation, []string, *caseInfo) {
 			liveDiffs[j] = s.live.(jd.Diff)
 		}
 		st.install()
-		got, produced := execCall(call, c, w.nodes[0].live.(jd.JsonNode), w.nodes[1].live.(jd.JsonNode), liveDiffs)
+		got, produced := execCall(call, c, w.nodes[0].live.(jd.JsonNode), w.nodes[1].live.(jd.JsonNode), liveDiffs, w.sharedOpts)
 		uninstallOrder()
 		// reference execution: fresh deep copies of the pristine twins, canonical order
 		refDiffs := make([]jd.Diff, len(w.diffs))
 		for j, s := range w.diffs {
 			refDiffs[j] = deepCopyAny(s.pristine).(jd.Diff)
 		}
-		want, refProduced := execCall(call, c, deepCopyAny(w.nodes[0].pristine).(jd.JsonNode), deepCopyAny(w.nodes[1].pristine).(jd.JsonNode), refDiffs)
+		want, refProduced := execCall(call, c, deepCopyAny(w.nodes[0].pristine).(jd.JsonNode), deepCopyAny(w.nodes[1].pristine).(jd.JsonNode), refDiffs, nil)
 		where := call.Op
 		if call.Op == "Read" && call.T < len(c.Texts) {
 			where = "Read:" + c.Texts[call.T].Kind
@@ -487,6 +537,17 @@ func checkC15(c C15Case) (*Violation, []string, *caseInfo) {
 				target = w.diffs[call.D].name
 			}
 			return viol15("same-output", where, "call %d %s on %s returned %s; the same call on untouched copies of the original values (canonical map order) returns %s. History so far: %s", i, call.Op, target, showStr(got.String()), showStr(want.String()), strings.Join(ops, " · ")), w.log, info
+		}
+		if now := fingerprint(w.sharedOpts); now != w.optsPrint {
+			return viol15("no-mutation", call.Op, "call %d %s wrote into the option slice it was given (beyond its length, into the caller's spare capacity): it was %s and is now %s. History so far: %s", i, call.Op, showStr(diffPrints(w.optsPrint, now)), showStr(diffPrints(now, w.optsPrint)), strings.Join(ops, " · ")), w.log, info
+		}
+		// the same call on the same (unchanged) values, later in the same
+		// process, gives what it gave the first time
+		sigKey := fmt.Sprintf("%s|%d|%v|%d|%d|%d|%d", call.Op, call.D, call.D < len(liveDiffs), call.N, call.O, call.T, call.E)
+		if first, seen := w.memo[sigKey]; seen && first != got.String() {
+			return viol15("same-output-on-repeat", where, "call %d %s returned %s; the same call on the same unchanged values returned %s earlier in this history: %s", i, call.Op, showStr(got.String()), showStr(first), strings.Join(ops, " · ")), w.log, info
+		} else if !seen {
+			w.memo[sigKey] = got.String()
 		}
 		if v := w.checkUnchanged(fmt.Sprintf("call %d %s", i, call.Op)); v != nil {
 			v.Detail += " History so far: " + strings.Join(ops, " · ")
@@ -562,7 +623,7 @@ func checkC15(c C15Case) (*Violation, []string, *caseInfo) {
 	// or set readings are in play, and the map-order mode
 	classOf := map[string]string{"Diff": "Diff", "DiffBA": "Diff", "Equals": "Equals", "Json": "JsonYaml", "Yaml": "JsonYaml",
 		"Render": "Render", "RenderColor": "Render", "ElemRender": "Render", "ElemRenderColor": "Render",
-		"RenderPatch": "RenderPatch", "RenderMerge": "RenderMerge", "Read": "Read", "ReadDoc": "Read"}
+		"RenderPatch": "RenderPatch", "RenderMerge": "RenderMerge", "Read": "Read", "ReadDoc": "Read", "PatchPrivate": "PatchPrivate"}
 	uniq := map[string]bool{}
 	var kinds []string
 	for _, o := range ops {
@@ -757,8 +818,8 @@ func genCase15(c *Chooser) C15Case {
 	}
 	nd := len(cs.Opts) + len(cs.Texts)
 	ncall := c.Range(1, 24)
-	ops := []string{"Diff", "DiffBA", "Equals", "Json", "Yaml", "Render", "RenderColor", "RenderPatch", "RenderMerge", "ElemRender", "ElemRenderColor", "Read", "ReadDoc"}
-	weights := []int{3, 1, 2, 2, 1, 4, 2, 5, 5, 1, 1, 3, 1}
+	ops := []string{"Diff", "DiffBA", "Equals", "Json", "Yaml", "Render", "RenderColor", "RenderPatch", "RenderMerge", "ElemRender", "ElemRenderColor", "Read", "ReadDoc", "PatchPrivate"}
+	weights := []int{3, 1, 2, 2, 1, 4, 2, 5, 5, 1, 1, 4, 1, 3}
 	for i := 0; i < ncall; i++ {
 		op := ops[c.Pick(weights...)]
 		call := Call{Op: op, D: c.Int(nd + i/2), N: c.Int(2), O: c.Int(len(cs.Opts)), E: c.Int(4)}
